@@ -312,6 +312,10 @@ func c16Classify(sn *c16Snap, cur *c16Model, pending []*c16Snap) string {
 				return "claim-with-unfinalized-submit"
 			}
 		}
+		if verifmc.Catch(func() { tx.UnspentOutputs() }) != nil {
+			// an output type byte finalization has no rule for
+			return "output-type-undefined"
+		}
 		for _, o := range tx.Outputs {
 			for _, k := range o.Keys {
 				if by, ok := m.ghost[*k]; ok && by != t.hash {
@@ -990,7 +994,7 @@ func TestMC_C16(t *testing.T) {
 	nnm := len(c16Bases) * len(c16NMAssets) * len(c16NMVariants) * len(c16NMContexts)
 	keysnm := make([]string, nnm)
 	var nmRejected, nmWritten atomic.Int64
-	c.ParallelN(nnm, "near-miss asset identities", func(_, i int) {
+	nmComplete := c.ParallelN(nnm, "near-miss asset identities", func(_, i int) {
 		ctx := c16NMContexts[i%len(c16NMContexts)]
 		j := i / len(c16NMContexts)
 		variant := c16NMVariants[j%len(c16NMVariants)]
@@ -1113,7 +1117,231 @@ func TestMC_C16(t *testing.T) {
 	c.Set("near_miss_cases", nnm)
 	c.Set("near_miss_rejected_at_signing", nmRejected.Load())
 	c.Set("near_miss_written", nmWritten.Load())
-	c.Require(nmRejected.Load() > 100 && nmWritten.Load() > 10, "near-miss menu vacuous: %d rejected at signing time, %d written", nmRejected.Load(), nmWritten.Load())
+	if nmComplete {
+		c.Require(nmRejected.Load() > 100 && nmWritten.Load() > 10, "near-miss menu vacuous: %d rejected at signing time, %d written", nmRejected.Load(), nmWritten.Load())
+	}
+
+	// ---- transfers with an undefined output type byte ----
+	// XIN transfer of 2 or 3 outputs, exactly one of them (every position, the
+	// last one included) carries a type byte no rule exists for, the others are
+	// script outputs; alone and batched with a deposit.
+	otTypes := []uint8{0x77, 0xa5, 0xff}
+	type otCase struct {
+		base    string
+		n, pos  int
+		typ     uint8
+		batched bool
+	}
+	var otCases []otCase
+	for _, b := range c16Bases {
+		for _, n := range []int{2, 3} {
+			for pos := 0; pos < n; pos++ {
+				for _, ty := range otTypes {
+					otCases = append(otCases, otCase{b, n, pos, ty, false}, otCase{b, n, pos, ty, true})
+				}
+			}
+		}
+	}
+	var otRejected atomic.Int64
+	otComplete := c.ParallelN(len(otCases), "undefined output types", func(_, i int) {
+		oc := otCases[i]
+		in := fresh(oc.base)
+		if in == nil {
+			return
+		}
+		defer in.close()
+		in.beginStep(1)
+		us := in.w.spendable(common.XINAssetId)
+		if len(us) == 0 {
+			c.Require(false, "no XIN output in base %s", oc.base)
+			return
+		}
+		u := us[0]
+		part := u.Amount.Div(oc.n)
+		amounts, types, seeds := make([]common.Integer, oc.n), make([]uint8, oc.n), make([]string, oc.n)
+		rest := u.Amount
+		for k := 0; k < oc.n; k++ {
+			amounts[k] = part
+			if k == oc.n-1 {
+				amounts[k] = rest
+			} else {
+				rest = rest.Sub(part)
+			}
+			seeds[k] = fmt.Sprintf("c16-ot-%d", k)
+		}
+		types[oc.pos] = oc.typ
+		v := in.w.txTransferTyped(u, amounts, types, seeds)
+		where := "non-last"
+		if oc.pos == oc.n-1 {
+			where = "last"
+		}
+		txs := []*c16Tx{{kind: fmt.Sprintf("ot%d/%d:%#x", oc.pos, oc.n, oc.typ), ver: v, hash: v.PayloadHash()}}
+		if oc.batched {
+			txs = append(txs, in.cand("d0.05"))
+		}
+		sn, err := in.propose(txs, in.m.Net.NodeIds[1], in.t0+uint64(time.Second))
+		if err != nil {
+			c.Require(false, "propose: %v", err)
+			return
+		}
+		cs := c16Case{Base: oc.base, Mode: "undefined-output-type", Steps: []string{strings.Join(sn.kinds(), "+")}}
+		c.Eval(1)
+		c.Distinct(fmt.Sprintf("%s|ot|%d|%d|%x|%v", oc.base, oc.n, oc.pos, oc.typ, oc.batched))
+		out, _ := r.exec(in, sn, cs)
+		if strings.HasPrefix(out, "reject:") {
+			otRejected.Add(1)
+		}
+		c.Outcome("ot-" + where + ":" + out)
+	})
+	c.Set("undefined_output_type_cases", len(otCases))
+	if otComplete {
+		c.Require(otRejected.Load() == int64(len(otCases)), "undefined output types: %d of %d cases rejected at signing time (an accepted one must have raised a violation)", otRejected.Load(), len(otCases))
+	}
+
+	// ---- one-time output key collisions between two transfers ----
+	// A = XIN transfer of n outputs; B = XIN transfer (other input) of n outputs
+	// whose output at every position of a non-empty mask reuses A's seed (same
+	// receiver and index, hence the same one-time key), other positions fresh.
+	// Contexts: one batch; A pending then B signed, finalized A-first / B-first;
+	// A final then B.
+	kcContexts := []string{"same-batch", "pending-A-first", "pending-B-first", "after-A-final"}
+	type kcCase struct {
+		base    string
+		n, mask int
+		ctx     string
+	}
+	var kcCases []kcCase
+	for _, b := range c16Bases {
+		for _, n := range []int{2, 3} {
+			for mask := 1; mask < 1<<n; mask++ {
+				for _, ctx := range kcContexts {
+					kcCases = append(kcCases, kcCase{b, n, mask, ctx})
+				}
+			}
+		}
+	}
+	var kcRejected atomic.Int64
+	kcComplete := c.ParallelN(len(kcCases), "output key collisions", func(_, i int) {
+		kc := kcCases[i]
+		in := fresh(kc.base)
+		if in == nil {
+			return
+		}
+		defer in.close()
+		in.beginStep(1)
+		us := in.w.spendable(common.XINAssetId)
+		if len(us) < 2 {
+			c.Require(false, "fewer than 2 XIN outputs in base %s", kc.base)
+			return
+		}
+		build := func(u *mcKUTXO, who string) *c16Tx {
+			part := u.Amount.Div(kc.n)
+			amounts, types, seeds := make([]common.Integer, kc.n), make([]uint8, kc.n), make([]string, kc.n)
+			rest := u.Amount
+			for k := 0; k < kc.n; k++ {
+				amounts[k] = part
+				if k == kc.n-1 {
+					amounts[k] = rest
+				} else {
+					rest = rest.Sub(part)
+				}
+				seeds[k] = fmt.Sprintf("c16-kc-A-%d", k)
+				if who == "B" && kc.mask&(1<<k) == 0 {
+					seeds[k] = fmt.Sprintf("c16-kc-B-%d", k)
+				}
+			}
+			v := in.w.txTransferTyped(u, amounts, types, seeds)
+			return &c16Tx{kind: fmt.Sprintf("k%s%d", who, kc.n), ver: v, hash: v.PayloadHash()}
+		}
+		a, b := build(us[0], "A"), build(us[1], "B")
+		b.kind = fmt.Sprintf("kB%d:collides-at-%0*b", kc.n, kc.n, kc.mask)
+		ts := in.t0 + uint64(time.Second)
+		cs := c16Case{Base: kc.base, Mode: "output-key-collision:" + kc.ctx, Steps: []string{a.kind, b.kind}}
+		c.Eval(1)
+		c.Distinct(fmt.Sprintf("%s|kc|%d|%d|%s", kc.base, kc.n, kc.mask, kc.ctx))
+		note := func(out string) {
+			if strings.Contains(out, "reject:") {
+				kcRejected.Add(1)
+			}
+			c.Outcome("kc-" + kc.ctx + ":" + out)
+		}
+		switch kc.ctx {
+		case "same-batch":
+			cs.Steps = []string{a.kind + "+" + b.kind}
+			sn, err := in.propose([]*c16Tx{a, b}, in.m.Net.NodeIds[1], ts)
+			if err != nil {
+				c.Require(false, "propose: %v", err)
+				return
+			}
+			out, _ := r.exec(in, sn, cs)
+			note(out)
+		case "after-A-final":
+			sa, err := in.propose([]*c16Tx{a}, in.m.Net.NodeIds[1], ts)
+			if err != nil {
+				c.Require(false, "propose: %v", err)
+				return
+			}
+			if out, written := r.exec(in, sa, cs); !written {
+				c.Require(false, "key collision: transfer A alone %s on base %s", out, kc.base)
+				return
+			}
+			in.beginStep(2)
+			sb, err := in.propose([]*c16Tx{b}, in.m.Net.NodeIds[2], ts+uint64(time.Second))
+			if err != nil {
+				c.Require(false, "propose: %v", err)
+				return
+			}
+			out, _ := r.exec(in, sb, cs)
+			note(out)
+		default:
+			sa, err := in.propose([]*c16Tx{a}, in.m.Net.NodeIds[1], ts)
+			if err != nil {
+				c.Require(false, "propose: %v", err)
+				return
+			}
+			if rej, p := in.validate(sa); rej != "" || p != nil {
+				c.Require(false, "key collision: transfer A alone refused (%s %v) on base %s", rej, p, kc.base)
+				return
+			}
+			in.beginStep(2)
+			sb, err := in.propose([]*c16Tx{b}, in.m.Net.NodeIds[2], ts+uint64(time.Second))
+			if err != nil {
+				c.Require(false, "propose: %v", err)
+				return
+			}
+			rej, p := in.validate(sb)
+			if p != nil {
+				r.mu.Lock()
+				r.vp++
+				r.mu.Unlock()
+				c.Set("validation_panic_sample", fmt.Sprintf("%v on %+v", p, cs))
+				return
+			}
+			if rej != "" {
+				// B is not pending; A alone must still finalize
+				out, _ := r.finish(in, sa, nil, cs)
+				note("second-reject:" + rej + "/A:" + out)
+				return
+			}
+			x, y := sa, sb
+			cs.Order = orders[0]
+			if kc.ctx == "pending-B-first" {
+				x, y = sb, sa
+				cs.Order = orders[1]
+			}
+			out, written := r.finish(in, x, []*c16Snap{y}, cs)
+			if !written && in.dead {
+				note("first-" + out)
+				return
+			}
+			out2, _ := r.finish(in, y, nil, cs)
+			note("first-" + out + "/second-" + out2)
+		}
+	})
+	c.Set("output_key_collision_cases", len(kcCases))
+	if kcComplete {
+		c.Require(kcRejected.Load() == int64(len(kcCases)), "output key collisions: %d of %d colliding transfers rejected at signing time (an accepted one must have raised a violation or is a harness error)", kcRejected.Load(), len(kcCases))
+	}
 
 	// ---- level 2, sequential: from every distinct state, every second snapshot ----
 	n2 := len(reps) * len(ev2)
